@@ -204,6 +204,8 @@ def eval_contract_native(C, nargs, outcome, value, post_args):
     if outcome == "return":
         if C.ensures is not None:
             for nm, f in _named(C.ensures(a, value)):
+                if isinstance(f, tuple) and f and f[0] in ("induct", "induct_down", "assert"):
+                    continue      # ghost step of the proof: nothing to evaluate natively
                 try:
                     ok = _truthy(f)
                 except Exception as e:
